@@ -313,7 +313,24 @@ pub fn run_c09(ctx: &Ctx) -> ! {
         ctx.pick(4000, 150_000),
         check_c09,
     );
+    rep.explore(
+        "frontier_after_rejections",
+        "the same with worlds that contain commands their policy rejects (rejected first commands of fresh perspectives, \
+         duplicates re-delivered right after a rejection, children of rejected commands) on up to 3 open transactions; \
+         non-trivial = a rejection happened and a multi-head committed state was reached",
+        || txcase_strategy(30, 40, 3, 2, 1),
+        ctx.pick(4000, 150_000),
+        check_c09_poison,
+    );
     rep.finish()
+}
+
+fn check_c09_poison(c: &TxCase, info: &mut CaseInfo) -> CheckResult {
+    let st = txn::run_case(c, POISON, info)?;
+    if (st.multi_head_states > 0 || st.actions_multi_head > 0) && st.rejected > 0 {
+        info.nontrivial();
+    }
+    Ok(())
 }
 
 fn check_c05(c: &TxCase, info: &mut CaseInfo) -> CheckResult {
